@@ -318,8 +318,15 @@ def runCur (c : SubProto.Cfg) (labels : List String) : Json := Id.run do
                   ("pos", posJson (curPos s)), ("steps", Json.arr steps)]
       | some s' =>
         let spawned : Json := if s'.ks.length > s.ks.length then toJson s.ks.length else Json.null
+        -- Go's select picks at random among its ready cases: the step cannot be forced then
+        let selAlts := (SubProto.enabled c s).filter (fun e => match e with
+          | .lRecv | .lRecvNil => true
+          | .kSendC _ => !s.chC
+          | _ => false)
+        let isSel : Bool := match e with | .lRecv | .lRecvNil => true | .kSendC _ => !s.chC | _ => false
+        let amb : Bool := isSel && selAlts.length ≥ 2
         s := s'
-        steps := steps.push (obj [("label", l), ("pos", posJson (curPos s)), ("fatal", optStr s.fatal), ("spawned", spawned)])
+        steps := steps.push (obj [("label", l), ("pos", posJson (curPos s)), ("fatal", optStr s.fatal), ("spawned", spawned), ("ambiguous", amb)])
         k := k + 1
   return obj [("accepted", true), ("steps", Json.arr steps), ("pos", posJson (curPos s)), ("fatal", optStr s.fatal),
     ("final", SubProto.final s), ("live", SubProto.live s), ("terminal", SubProto.terminal c s),
@@ -340,9 +347,14 @@ def runFix (kn : SubProtoFixed.Knobs) (c : SubProto.Cfg) (labels : List String) 
       | some s' =>
         let spawned : Json := if s'.ks.length > s.ks.length then toJson s.ks.length else Json.null
         let byL : Bool := (lCloser s').isSome && (lCloser s).isNone
+        let selAlts := (SubProtoFixed.enabled kn c s).filter (fun e => match e with
+          | .lRecv | .lRecvNil | .lRecvClose => true
+          | _ => false)
+        let isSel : Bool := match e with | .lRecv | .lRecvNil | .lRecvClose => true | _ => false
+        let amb : Bool := isSel && selAlts.length ≥ 2
         s := s'
         steps := steps.push (obj [("label", l), ("pos", posJson (fixPos s)), ("fatal", optStr s.fatal),
-          ("spawned", spawned), ("spawnedByL", byL)])
+          ("spawned", spawned), ("spawnedByL", byL), ("ambiguous", amb)])
         k := k + 1
   return obj [("accepted", true), ("steps", Json.arr steps), ("pos", posJson (fixPos s)), ("fatal", optStr s.fatal),
     ("final", SubProtoFixed.final s), ("live", SubProtoFixed.live s), ("terminal", SubProtoFixed.terminal kn c s),
@@ -363,7 +375,7 @@ def advance (obs : List (String × List String)) (before after : List (String ×
       match o.lookup g with
       | some (x :: rest) => if x == p then some (o.map (fun (g', l) => if g' == g then (g', rest) else (g', l))) else none
       | some [] => if p == "done" then some o else none     -- exits need not be observed
-      | none => none) obs
+      | none => if p == "done" then some o else none) obs
 
 partial def acceptSearch {σ ε : Type} [BEq σ] [Hashable σ] (sys : Sys σ ε) (pos : σ → List (String × String))
     (obs0 : List (String × List String)) (maxNodes : Nat) : Bool × Nat × List (String × List String) := Id.run do
